@@ -1143,6 +1143,22 @@ func wants(ws []krpc.Want, w string, dflt bool) bool {
 // bucket than its id's distance from the node's own id gives (C05's concern), the rules are evaluated a second time with
 // the buckets the ids define: the property speaks of nearness to the target, whatever the table's layout.
 func (st *srvState) oracleNodes(e *sev, in *krpc.Msg, out *krpc.Msg, pre []dht.VerifNode, ctxs string) {
+	// The requester itself, when it is a table entry: this very query is the latest it was heard from, so by the time the
+	// reply is put together an entry that answered one of our queries at any time before (and is not bad) is good again,
+	// however long ago the snapshot taken before the event last heard from it.
+	if in.A != nil && e.src != nil {
+		adj := append([]dht.VerifNode(nil), pre...)
+		for i := range adj {
+			if adj[i].Id == [20]byte(in.A.ID) && net.IP(adj[i].IP).Equal(e.src.IP) && adj[i].Port == e.src.Port {
+				adj[i].QueryAgeNs = 0
+				if !adj[i].Bad && adj[i].ResponseAgeNs >= 0 {
+					adj[i].Good = true
+					adj[i].Questionable = false
+				}
+			}
+		}
+		pre = adj
+	}
 	st.oracleNodesBy(e, in, out, pre, ctxs, func(n dht.VerifNode) int { return n.Bucket })
 	for _, n := range pre {
 		if n.Id != st.c.cfg.root && n.Bucket != sharedPrefix(st.c.cfg.root, n.Id) {
